@@ -1,0 +1,21 @@
+package scheduler
+
+// Instrumentation points used by the verification harness in /verif. With the
+// "verif" build tag off, verifPoint and friends are empty functions (see
+// verif_off.go) and these constants are only names.
+const (
+	verifLoopTop = iota
+	verifDispatch
+	verifEnqClosed
+	verifEnq
+	verifResult
+	verifResultDone
+	verifTick
+	verifLoopExit
+	verifWorkerStart
+	verifWorkerGot
+	verifWorkerPost
+	verifEnqueueSend
+	verifWaitClose
+	verifWaitClosed
+)
